@@ -486,6 +486,7 @@ func (vt *Model) print(seq ansi.Print) {
 			break
 		}
 		vt.activeScreen[rw][col+i].Character.Grapheme = " "
+		vt.activeScreen[rw][col+i].Character.Width = 0
 		vt.activeScreen[rw][col+i].Style = vt.cursor.Style
 	}
 
